@@ -53,82 +53,144 @@ func RunMC(c MCCheck, tier string) int {
 	exhaustive := true
 	var samples []string
 	caps := ""
+	extraCaps, extraExecs, extraPoints := "", 0, 0
+	// explore runs driver d / parameter p with deviation bounds from..to (iteratively) until dl; it returns the last
+	// bound completed and whether a violation or error ended it
+	type progress struct {
+		completed int
+		last      *mc.Total
+		stopped   bool
+	}
+	explore := func(d MCDriver, p string, from, to int, dl time.Time, optional bool) progress {
+		key := d.Name + "/" + p
+		pr := progress{completed: from - 1}
+		for b := from; b <= to; b++ {
+			if time.Now().After(dl) {
+				if !optional {
+					exhaustive = false
+					caps += fmt.Sprintf("%s: deadline before bound %d; ", key, b)
+				}
+				break
+			}
+			t := mc.Explore(pool, d.Name, p, b, d.MapOrder, d.Delay, dl)
+			errs = append(errs, t.Errs...)
+			stop := false
+			for _, v := range t.Viol {
+				if f := MatchFinding(c.Prop, []string{v.Note}, v.Verdict, v.Msg); f != nil {
+					known[f.ID] = f
+					continue
+				}
+				// re-execute twice
+				same, again := 0, 0
+				for k := 0; k < 2; k++ {
+					if r := replayMC(pool, v, d.MapOrder, d.Delay); r != nil {
+						again++
+						if r.Msg == v.Msg {
+							same++
+						}
+					}
+				}
+				art := map[string]interface{}{"property": c.Prop, "engine": "mc", "driver": v.Driver, "param": v.Param, "choices": v.Choices,
+					"map_order": d.MapOrder, "delay_bound": d.Delay, "verdict": v.Verdict, "msg": v.Msg, "deviations": v.Devs, "reproduced": same, "failed_again": again}
+				path := evid.Replay(c.Prop, art)
+				// the same choice list failing on every execution is a violation even if the wording differs between the runs;
+				// a re-run that passes is nondeterminism the harness does not own: a harness error, never a violation
+				if again < 2 {
+					fmt.Printf("UNSTABLE: property=%s failure did not reproduce (%d/2 re-runs failed): %s\n", c.Prop, again, path)
+					errs = append(errs, "unstable failure "+path)
+					continue
+				}
+				if len(viols) < 5 {
+					viols = append(viols, path)
+					evid.Violation(c.Prop, path)
+					fmt.Printf("  driver %s/%s, %d deviation(s): %s\n", v.Driver, v.Param, v.Devs, v.Msg)
+				}
+				stop = true
+			}
+			if !t.Exhaustive {
+				if optional {
+					// a capped optional bound still counts its executions, but the completed bound stays where it was
+					pr.last = nil
+					extraCaps += fmt.Sprintf("%s: bound %d not completed (%s, %d schedules run); ", key, b, t.Capped, t.Execs)
+					extraExecs += t.Execs
+					extraPoints += t.Points
+				} else {
+					pr.last = t
+					exhaustive = false
+					caps += fmt.Sprintf("%s: bound %d capped (%s); ", key, b, t.Capped)
+				}
+				break
+			}
+			pr.last = t
+			if stop || len(t.Errs) > 0 {
+				pr.stopped = true
+				break
+			}
+			pr.completed = b
+		}
+		return pr
+	}
+	record := func(key string, pr progress) {
+		last := pr.last
+		per[key] = map[string]interface{}{"deviation_bound_completed": pr.completed, "schedules": last.Execs, "choice_points": last.Points,
+			"max_points_per_execution": last.MaxPoints, "distinct_outcomes": len(last.Outcomes), "verdicts": last.Verdicts}
+		fmt.Printf("%s %s: %s bound=%d schedules=%d outcomes=%d verdicts=%v (%.1fs)\n", c.Prop, tier, key, pr.completed, last.Execs, len(last.Outcomes), last.Verdicts, time.Since(start).Seconds())
+	}
+	type dp struct {
+		d  MCDriver
+		p  string
+		pr progress
+	}
+	var all []*dp
 	for _, d := range c.Drivers {
 		bound := d.Quick
 		if tier == "thorough" {
 			bound = d.Thorough
 		}
 		for _, p := range d.Params {
-			key := d.Name + "/" + p
-			completed := -1
-			var last *mc.Total
-			for b := 0; b <= bound; b++ {
-				if time.Now().After(deadline) {
-					exhaustive = false
-					caps += fmt.Sprintf("%s: deadline before bound %d; ", key, b)
-					break
-				}
-				t := mc.Explore(pool, d.Name, p, b, d.MapOrder, d.Delay, deadline)
-				last = t
-				errs = append(errs, t.Errs...)
-				stop := false
-				for _, v := range t.Viol {
-					if f := MatchFinding(c.Prop, []string{v.Note}, v.Verdict, v.Msg); f != nil {
-						known[f.ID] = f
-						continue
-					}
-					// re-execute twice: must fail identically
-					same := 0
-					for k := 0; k < 2; k++ {
-						if r := replayMC(pool, v, d.MapOrder, d.Delay); r != nil && r.Msg == v.Msg {
-							same++
-						}
-					}
-					art := map[string]interface{}{"property": c.Prop, "engine": "mc", "driver": v.Driver, "param": v.Param, "choices": v.Choices,
-						"map_order": d.MapOrder, "delay_bound": d.Delay, "verdict": v.Verdict, "msg": v.Msg, "deviations": v.Devs, "reproduced": same}
-					path := evid.Replay(c.Prop, art)
-					if same < 2 {
-						fmt.Printf("UNSTABLE: property=%s failure did not reproduce identically (%d/2): %s\n", c.Prop, same, path)
-						errs = append(errs, "unstable failure "+path)
-						continue
-					}
-					if len(viols) < 5 {
-						viols = append(viols, path)
-						evid.Violation(c.Prop, path)
-						fmt.Printf("  driver %s/%s, %d deviation(s): %s\n", v.Driver, v.Param, v.Devs, v.Msg)
-					}
-					stop = true
-				}
-				if !t.Exhaustive {
-					exhaustive = false
-					caps += fmt.Sprintf("%s: bound %d capped (%s); ", key, b, t.Capped)
-					break
-				}
-				if stop || len(t.Errs) > 0 {
-					break
-				}
-				completed = b
-			}
-			if last != nil {
-				totExec += last.Execs
-				totPoints += last.Points
-				distinct += len(last.Outcomes)
-				if len(samples) < 8 {
-					samples = append(samples, prefixEach(key+": ", last.Samples)...)
-				}
-				per[key] = map[string]interface{}{"deviation_bound_completed": completed, "schedules": last.Execs, "choice_points": last.Points,
-					"max_points_per_execution": last.MaxPoints, "distinct_outcomes": len(last.Outcomes), "verdicts": last.Verdicts}
-				fmt.Printf("%s %s: %s bound=%d schedules=%d outcomes=%d verdicts=%v (%.1fs)\n", c.Prop, tier, key, completed, last.Execs, len(last.Outcomes), last.Verdicts, time.Since(start).Seconds())
+			x := &dp{d: d, p: p}
+			x.pr = explore(d, p, 0, bound, deadline, false)
+			all = append(all, x)
+			if x.pr.last != nil {
+				record(d.Name+"/"+p, x.pr)
 			}
 		}
 	}
+	// thorough: what is left of the budget goes into one further deviation bound per driver, in turn (fair shares);
+	// a bound that does not complete within its share is reported as attempted, the completed bound stays
+	if tier == "thorough" && len(viols) == 0 && len(errs) == 0 {
+		for i, x := range all {
+			left := time.Until(deadline)
+			if left < 20*time.Second || x.pr.stopped || x.pr.last == nil || x.pr.completed < 0 {
+				continue
+			}
+			share := time.Now().Add(left / time.Duration(len(all)-i))
+			pr := explore(x.d, x.p, x.pr.completed+1, x.pr.completed+1, share, true)
+			if pr.last != nil && (pr.completed > x.pr.completed || pr.stopped) {
+				x.pr = pr
+				record(x.d.Name+"/"+x.p, pr)
+			}
+		}
+	}
+	for _, x := range all {
+		if last := x.pr.last; last != nil {
+			totExec += last.Execs
+			totPoints += last.Points
+			distinct += len(last.Outcomes)
+			if len(samples) < 8 {
+				samples = append(samples, prefixEach(x.d.Name+"/"+x.p+": ", last.Samples)...)
+			}
+		}
+	}
+	totExec += extraExecs
+	totPoints += extraPoints
 	if len(samples) == 0 {
 		samples = []string{"(no execution recorded)"}
 	}
 	cov := map[string]interface{}{
 		"states": totExec, "transitions": totPoints, "traces_validated_against_impl": totExec,
 		"evaluations": totExec, "distinct_nontrivial": distinct, "schedules": totExec, "rule": c.Rule, "samples": samples,
-		"exhaustive": exhaustive && len(errs) == 0, "caps_hit": caps, "drivers": per, "harness_errors": errs,
+		"exhaustive": exhaustive && len(errs) == 0, "caps_hit": caps, "optional_deeper_bounds_not_completed": extraCaps, "drivers": per, "harness_errors": errs,
 		"known_findings_seen": keys(known),
 	}
 	if c.Extra != nil {
